@@ -30,7 +30,8 @@ Definition ident_out (l : list supp) : list str :=
   flat_map (fun s => [s_id s; s_file s; dec_of_Z (s_line s); str_of_bool (s_matched s); str_of_bool (s_checked s)]) l.
 
 Definition um_out (l : list supp) : list str :=
-  flat_map (fun s => [s_file s; dec_of_Z (if is_nil (s_file s) then 0%Z else if (s_line s =? NO_LINE)%Z then 0%Z else s_line s); s_id s]) l.
+  (* ErrorMessage::FileLocation keeps the simplified path *)
+  flat_map (fun s => [simp (s_file s); dec_of_Z (if is_nil (s_file s) then 0%Z else if (s_line s =? NO_LINE)%Z then 0%Z else s_line s); s_id s]) l.
 
 Definition take_file (l : list str) : option (finput * list str) :=
   match l with
@@ -40,7 +41,7 @@ Definition take_file (l : list str) : option (finput * list str) :=
           match take_list take_loc r1 with
           | Some (locs, r2) =>
               match take_list take_emsg_t r2 with
-              | Some (ms, r3) => Some (mkF path inls locs ms, r3)
+              | Some (ms, r3) => Some (mkF (simp path) inls locs ms, r3)
               | None => None
               end
           | None => None
@@ -50,9 +51,10 @@ Definition take_file (l : list str) : option (finput * list str) :=
   | [] => None
   end.
 
-(* PathMatch::match on plain file names of the working directory (no separators):
-   the glob language (C31 models the general matcher) *)
-Definition pm_names (pattern path : str) : bool := glob_spec (cstr pattern) (cstr path).
+(* SuppressionList::parseLine simplifies the file name of a command-line / file suppression *)
+Definition simp_supp (s : supp) : supp :=
+  mkSupp (s_id s) (simp (s_file s)) (s_line s) (s_begin s) (s_end s) (s_type s) (s_symbol s)
+         (s_macro s) (s_hash s) (s_next s) (s_inline s) (s_matched s) (s_checked s).
 
 Definition kind_of (s : str) : option ekind :=
   match N_of_dec s with
@@ -97,7 +99,7 @@ Definition run (fields : list str) : list str :=
                 | Some (l, r2) =>
                     match take_list take_str r2 with
                     | Some (paths, _) =>
-                        match report_unmatched pm_plain filters (bool_of_str ie) (add_all [] l) paths with
+                        match report_unmatched pm_run filters (bool_of_str ie) (add_all [] l) (map simp paths) with
                         | Some u => str_of_bool (negb (is_nil_list u)) :: um_out u
                         | None => FUEL
                         end
@@ -123,9 +125,9 @@ Definition run (fields : list str) : list str :=
                         | Some (files, r4) =>
                             match take_list take_emsg_t r4 with
                             | Some (wp, _) =>
-                                match whole_run pm_names (kind_of k)
+                                match whole_run pm_run (kind_of k)
                                         (mkC (nd ec) (bool_of_str info) (bool_of_str inle) filters)
-                                        (add_all [] nomsg) (add_all [] nofail) files wp with
+                                        (add_all [] (map simp_supp nomsg)) (add_all [] (map simp_supp nofail)) files wp with
                                 | Some o =>
                                     dec_of_N (o_status o) :: dec_of_N (N.of_nat (length (o_reported o)))
                                       :: map snd (o_reported o) ++ um_out (o_unmatched o)
@@ -148,7 +150,7 @@ Definition run (fields : list str) : list str :=
         | Some (l, r) =>
             match take_list take_emsg_g r with
             | Some (es, _) =>
-                match list_run pm_plain l es with
+                match list_run pm_run l es with
                 | Some (l', bs) => map str_of_bool bs ++ flags_out l'
                 | None => FUEL
                 end
@@ -157,12 +159,12 @@ Definition run (fields : list str) : list str :=
         | None => BAD
         end
       else if tag_is tag [108;105;115;116;110] then
-        (* "listn": as "list", file names matched by the glob language *)
+        (* "listn": as "list", suppression file names simplified as parseLine does (property evaluation of C25) *)
         match take_list take_supp args with
         | Some (l, r) =>
             match take_list take_emsg_g r with
             | Some (es, _) =>
-                match list_run pm_names l es with
+                match list_run pm_run l es with
                 | Some (l', bs) => map str_of_bool bs ++ flags_out l'
                 | None => FUEL
                 end
@@ -179,7 +181,7 @@ Definition run (fields : list str) : list str :=
                 | Some (nofail, r2) =>
                     match take_list take_emsg_t r2 with
                     | Some (ms, _) =>
-                        match logger_run pm_plain (bool_of_str g) (mkL nomsg nofail [] false) ms with
+                        match logger_run pm_run (bool_of_str g) (mkL nomsg nofail [] false) ms with
                         | Some (st, bs) =>
                             map str_of_bool bs ++ [str_of_bool (l_exit st)]
                                 ++ flags_out (l_nomsg st) ++ flags_out (l_nofail st)
@@ -196,7 +198,7 @@ Definition run (fields : list str) : list str :=
       else if tag_is tag [117;110;109;97;116;99;104;101;100] then
         match args with
         | file :: r => match take_supp r with
-                       | Some (s, _) => [str_of_bool (unmatched_local pm_plain file s);
+                       | Some (s, _) => [str_of_bool (unmatched_local pm_run (simp file) s);
                                          str_of_bool (unmatched_global s);
                                          str_of_bool (unmatched_inline s)]
                        | None => BAD
